@@ -107,8 +107,10 @@ def spec_cacg_covariance(z, gamma, qf, hermitize=True,
     B = np.zeros((D, D), dtype=complex)
     s = 0.0
     for n in range(N):
-        B += (gamma[n] / qf[n]) * np.outer(z[n], z[n].conj())
         s += gamma[n]
+        if not np.any(z[n]):
+            continue      # a silent frame contributes z z^H = 0 for any q > 0
+        B += (gamma[n] / qf[n]) * np.outer(z[n], z[n].conj())
     B = D * B / s
     if hermitize:
         B = (B + B.conj().T) / 2
@@ -149,6 +151,18 @@ def check_cacg(cacg, z, gamma, qf, opts):
             if not r <= TOL:
                 return f'cACG covariance of class {k} at {idx} differs from ' \
                        f'the eigenvalue-normalised Tyler update by {r:.3e} (relative)'
+            # the small eigenvalues (invisible in the matrix norm) one by one:
+            # they carry the floor
+            li = np.sort(np.asarray(ev[idx + (k,)], dtype=float))
+            ls = np.linalg.eigvalsh(Cs)
+            tol_e = 1e-6 * np.abs(ls) + 1e-12 * float(np.max(np.abs(ls)))
+            re = float(np.max(np.abs(li - ls) / tol_e))
+            note('cacg_eigenvalues', re, 1.0)
+            if not re <= 1.0:
+                j = int(np.argmax(np.abs(li - ls) / tol_e))
+                return f'cACG eigenvalue {j} of class {k} at {idx} is ' \
+                       f'{li[j]:.6e}, the floored eigenvalue of the ' \
+                       f'normalised Tyler update is {ls[j]:.6e}'
     return None
 
 
